@@ -136,6 +136,19 @@ def execute(trace, ctx):
             ctx.violate(P, "load-raised", f"Manager.from_files raised {type(e).__name__}: {e}", key=type(e).__name__)
             return
         ctx.op("load", "ok")
+        if trace["np_seed"] % 6 == 4:
+            # the input is renamed away after loading and another system (same layout, every coordinate shifted, another
+            # title) is written under its name: the manager keeps working on the system it loaded
+            os.rename(paths["system"], paths["system"][:-4] + "_loaded.gro")
+            ls_ = W.system_text(world).split("\n")
+            n_at_ = int(ls_[1])
+            ls_[0] = "another system altogether"
+            for k_ in range(n_at_):
+                l_ = ls_[2 + k_]
+                ls_[2 + k_] = l_[:20] + "%8.3f%8.3f%8.3f" % tuple(float(l_[20 + 8 * q:28 + 8 * q]) + 1.0 for q in range(3)) + l_[44:]
+            with open(paths["system"], "w") as f_:
+                f_.write("\n".join(ls_))
+            ctx.fault("input_replaced_under_its_name_after_loading")
         attached = {}
         mapped_at = {}          # species -> True when its map was built after its (latest) end molecule was attached
         last_success = {}       # out path -> (state key, bytes)
